@@ -1,0 +1,80 @@
+//go:build verif
+
+// Contracts checked by /verif/gvc (contract-based deductive verification).
+// This file contains comments only; it is compiled only under the "verif" build tag.
+
+package federation
+
+// C17 — the receiving side of the federation event stream, and the duplicate filter it relies on.
+
+// lruCache.set: reports whether the event id was seen recently and remembers it; the cache never holds more than
+// "size" ids.
+//@ spec func lruOK(l *lruCache) bool = l != nil && l.l != nil && l.items != nil && listOK(l.l) && l.size >= 1 && len(l.items) == l.l.$len && len(l.items) <= l.size && (forall e *list.Element :: inList(l.l, e) ==> e.Value.(type uint64) && has(l.items, e.Value.(uint64))) && (forall e *list.Element, f *list.Element :: inList(l.l, e) && inList(l.l, f) && e != f ==> e.Value.(uint64) != f.Value.(uint64))
+//@ func (*lruCache).set
+//@ props C17
+//@ requires [C17] lruOK(l)
+//@ modifies map(l.items), ghost(l.l.$len), ghost(l.l.$next), ghostall(list.Element.$owner), ghostall(list.Element.$pos), all(list.Element.Value)
+//@ ensures [C17] exist == old(has(l.items, id))
+//@ ensures [C17] has(l.items, id)
+//@ ensures [C17] lruOK(l)
+//@ ensures [C17] exist ==> (forall k uint64 :: has(l.items, k) == old(has(l.items, k)))
+
+// The broker's Publisher (server.Publisher): $pubs counts the messages handed to it, $lastPub is the last one. It
+// does not call the OnMsgArrived hook (service.go), so a forwarded message is not forwarded again.
+//@ ghost field (server.Publisher).pubs int
+//@ ghost field (server.Publisher).lastPub *gmqtt.Message
+//@ func (server.Publisher).Publish
+//@ params p, message
+//@ requires message != nil
+//@ modifies ghost(p.$pubs), ghost(p.$lastPub)
+//@ ensures p.$pubs == old(p.$pubs) + 1 && p.$lastPub == message
+
+// the federation subscription tree is a memory subscription store whose subscriber ids are node names: $fsubs /
+// $funsubs count the Subscribe / Unsubscribe calls, $lastNode is the subscriber of the last one
+//@ ghost field (mem.TrieDB).fsubs int
+//@ ghost field (mem.TrieDB).funsubs int
+//@ ghost field (mem.TrieDB).lastNode string
+//@ func (*mem.TrieDB).Subscribe trusted
+//@ params db, clientID, subscriptions
+//@ modifies ghost(db.$fsubs), ghost(db.$lastNode)
+//@ ensures db.$fsubs == old(db.$fsubs) + 1 && db.$lastNode == clientID
+//@ func (*mem.TrieDB).Unsubscribe trusted
+//@ params db, clientID, topics
+//@ modifies ghost(db.$funsubs), ghost(db.$lastNode)
+//@ ensures db.$funsubs == old(db.$funsubs) + 1 && db.$lastNode == clientID
+
+//@ func (*Event).GetSubscribe inline
+//@ func (*Event).GetMessage inline
+//@ func (*Event).GetUnsubscribe inline
+//@ func (*Event).String trusted pure
+
+// eventToMessage: the message a peer forwarded, field by field.
+//@ func eventToMessage
+//@ props C17
+//@ requires [C17] event != nil && (forall i int :: 0 <= i && i < len(event.UserProperties) ==> event.UserProperties[i] != nil)
+//@ modifies allelems(packets.UserProperty)
+//@ ensures [C17] result != nil && isfresh(result) && result.QoS == byte(event.Qos) && result.Retained == event.Retained && result.Topic == event.TopicName && result.Payload == event.Payload && result.ContentType == event.ContentType && result.MessageExpiry == event.MessageExpiry && result.ResponseTopic == event.ResponseTopic && len(result.UserProperties) == len(event.UserProperties)
+//@ loop 1 invariant pubMsg != nil && isfresh(pubMsg) && pubMsg.QoS == byte(event.Qos) && pubMsg.Retained == event.Retained && pubMsg.Topic == event.TopicName && pubMsg.Payload == event.Payload && pubMsg.ContentType == event.ContentType && pubMsg.MessageExpiry == event.MessageExpiry && pubMsg.ResponseTopic == event.ResponseTopic && len(pubMsg.UserProperties) == $k + 1
+//@ loop 1 invariant forall i int :: 0 <= i && i < len(event.UserProperties) ==> event.UserProperties[i] != nil
+
+// eventStreamHandler: an event with an id seen before has no effect (it is only acknowledged); a message event is
+// handed to the broker's Publisher exactly once, as eventToMessage builds it; a retained message with a payload
+// replaces the retained message of its topic, a retained message with an empty payload clears it; the acknowledgement
+// carries the event's id.
+//@ func (*Federation).eventStreamHandler
+//@ props C17
+//@ let P = f.publisher
+//@ let R = f.retainedStore
+//@ let M = in.Event.(*Event_Message)
+//@ let T = f.fedSubStore.TrieDB
+//@ requires [C17] f != nil && sess != nil && in != nil && lruOK(sess.seenEvents) && f.publisher != nil && f.retainedStore != nil && f.fedSubStore != nil && f.fedSubStore.TrieDB != nil
+// the payload of a oneof is never a typed nil (protobuf decoding)
+//@ requires [C17] (in.Event.(type *Event_Subscribe) ==> in.Event.(*Event_Subscribe) != nil) && (in.Event.(type *Event_Message) ==> in.Event.(*Event_Message) != nil) && (in.Event.(type *Event_Unsubscribe) ==> in.Event.(*Event_Unsubscribe) != nil)
+//@ requires [C17] in.Event.(type *Event_Message) && M != nil && M.Message != nil ==> (forall i int :: 0 <= i && i < len(M.Message.UserProperties) ==> M.Message.UserProperties[i] != nil)
+//@ modifies heap, ghost(P.$pubs), ghost(P.$lastPub), ghost(R.$msg), ghost(R.$ops), ghost(T.$fsubs), ghost(T.$funsubs), ghost(T.$lastNode), ghost(sess.seenEvents.l.$len), ghost(sess.seenEvents.l.$next), ghostall(list.Element.$owner), ghostall(list.Element.$pos)
+//@ ensures [C17] old(has(sess.seenEvents.items, in.Id)) ==> P.$pubs == old(P.$pubs) && R.$ops == old(R.$ops) && T.$fsubs == old(T.$fsubs) && T.$funsubs == old(T.$funsubs) && ack != nil && ack.EventId == in.Id
+//@ ensures [C17] ack != nil ==> ack.EventId == in.Id
+//@ ensures [C17] !old(has(sess.seenEvents.items, in.Id)) && in.Event.(type *Event_Message) && M != nil && M.Message != nil ==> P.$pubs == old(P.$pubs) + 1 && P.$lastPub != nil && P.$lastPub.Topic == M.Message.TopicName && P.$lastPub.Retained == M.Message.Retained && P.$lastPub.QoS == byte(M.Message.Qos) && P.$lastPub.Payload == M.Message.Payload
+//@ ensures [C17] !old(has(sess.seenEvents.items, in.Id)) && in.Event.(type *Event_Message) && M != nil && M.Message != nil && M.Message.Retained && len(M.Message.Payload) > 0 ==> R.$ops == old(R.$ops) + 1 && R.$msg[M.Message.TopicName] == P.$lastPub
+//@ ensures [C17] !old(has(sess.seenEvents.items, in.Id)) && in.Event.(type *Event_Message) && M != nil && M.Message != nil && M.Message.Retained && len(M.Message.Payload) == 0 ==> R.$ops == old(R.$ops) + 1 && R.$msg[M.Message.TopicName] == nil
+//@ ensures [C17] !old(has(sess.seenEvents.items, in.Id)) && in.Event.(type *Event_Message) && M != nil && M.Message != nil && !M.Message.Retained ==> R.$ops == old(R.$ops)
